@@ -31,6 +31,12 @@ func (k KeySpec) value() interface{} {
 	switch k.Kind {
 	case "int64":
 		return k.Int
+	case "int32":
+		return int32(k.Int)
+	case "uint64":
+		return uint64(k.Int)
+	case "uint8":
+		return uint8(k.Int)
 	case "string":
 		return k.Str
 	}
@@ -42,6 +48,8 @@ type Config struct {
 	Shards  uint64    `json:"shards"`
 	RW      int       `json:"rw"`
 	Keys    []KeySpec `json:"keys"`
+	// Defaults: build the container without options (rwRatio 10, 73 shards); RW and Shards then hold those values
+	Defaults bool `json:"defaults,omitempty"`
 }
 
 func (c Config) valid() bool {
@@ -59,6 +67,15 @@ func (c Config) valid() bool {
 }
 
 func (c Config) build() semap.SemMapper {
+	if c.Defaults && c.RW == semap.DefaultRWRatio && c.Shards == 73 {
+		switch c.Variant {
+		case "wide":
+			return semap.NewWideSemMap()
+		case "xwide":
+			return semap.NewWideXHashSemMap()
+		}
+		return semap.NewSemMap()
+	}
 	switch c.Variant {
 	case "wide":
 		return semap.NewWideSemMap(semap.WithRwRatio(c.RW), semap.WithPrime(c.Shards))
@@ -72,7 +89,10 @@ func genConfig(t *rapid.T) Config {
 	c := Config{
 		Variant: rapid.SampledFrom([]string{"single", "single", "wide", "xwide"}).Draw(t, "variant"),
 		Shards:  rapid.SampledFrom([]uint64{1, 2, 3, 7, 73}).Draw(t, "shards"),
-		RW:      rapid.SampledFrom([]int{1, 2, 3, 3, 5, 10}).Draw(t, "rw"),
+		RW:      rapid.SampledFrom([]int{1, 2, 3, 3, 5, 10, 2, 3, 127, 128, 256, 65537}).Draw(t, "rw"),
+	}
+	if rapid.IntRange(0, 11).Draw(t, "defaults") == 0 {
+		c.Defaults, c.RW, c.Shards = true, semap.DefaultRWRatio, 73
 	}
 	nk := rapid.SampledFrom([]int{1, 1, 2, 2, 3}).Draw(t, "nkeys")
 	base := rapid.Int64Range(-5, 50).Draw(t, "basekey")
@@ -85,6 +105,8 @@ func genConfig(t *rapid.T) Config {
 			k = KeySpec{Kind: "int64", Int: base + int64(i/2)}
 		case 2:
 			k = KeySpec{Kind: "string", Str: rapid.SampledFrom([]string{"", "a", "b", "key", "k\x00"}).Draw(t, "strkey")}
+		case 3:
+			k = KeySpec{Kind: rapid.SampledFrom([]string{"int32", "uint64", "uint8"}).Draw(t, "intkind"), Int: (base + int64(i)) & 0x7f}
 		default:
 			k = KeySpec{Kind: "int", Int: base + int64(i)}
 		}
@@ -455,6 +477,12 @@ func ExecCtl(c CaseCtl) *vkit.Result {
 			if c.RW == 1 {
 				res.Class("rwRatio-1")
 			}
+			if c.RW > 100 {
+				res.Class("rwRatio>100")
+			}
+			if c.Defaults {
+				res.Class("default-options")
+			}
 			ctx, cancel := context.WithCancel(context.Background())
 			if st.PreCancel {
 				cancel()
@@ -770,7 +798,7 @@ func ExecStress(c CaseStress) *vkit.Result {
 
 var PartCtl = &vkit.Part[CaseCtl]{
 	Property: Property, Name: "controlled",
-	Rule:  "rapid: {variant single|wide-modulo|wide-xxhash, shards 1/2/3/7/73, rwRatio 1/2/3/5/10, 1-3 keys incl. same-shard and same-value-different-type pairs} + 4-30 steps drawn by folding the reference model (acquire R/W incl. pre-cancelled contexts, release by a current holder, cancel of head / mid-queue waiters, holders, finished actors); every acquire on its own goroutine, quiescence (stop-the-world goroutine-state cut) after every step, observed {acquired, failed, parked} per actor compared with the weighted-FIFO model, an independent per-key holder count checks exclusion, idle keys must have no entry, final drain must leave 0 entries. Non-trivial: at least one acquire had to wait; distinct = distinct case JSON",
+	Rule:  "rapid: {variant single|wide-modulo|wide-xxhash, shards 1/2/3/7/73, rwRatio 1/2/3/5/10/127/128/256/65537 or the option-less defaults, 1-3 keys incl. same-shard and same-value-different-type pairs} + 4-30 steps drawn by folding the reference model (acquire R/W incl. pre-cancelled contexts, release by a current holder, cancel of head / mid-queue waiters, holders, finished actors); every acquire on its own goroutine, quiescence (stop-the-world goroutine-state cut) after every step, observed {acquired, failed, parked} per actor compared with the weighted-FIFO model, an independent per-key holder count checks exclusion, idle keys must have no entry, final drain must leave 0 entries. Non-trivial: at least one acquire had to wait; distinct = distinct case JSON",
 	Quick: 3000, Thorough: 20000,
 	Gen: GenCtl, Exec: ExecCtl,
 }
